@@ -259,6 +259,9 @@ func (p protoRun) build() *runCtx {
 	default:
 		panic("unknown protocol " + p.Proto)
 	}
+	if len(p.GenPre) > 0 && x.net != nil {
+		x.net.CallBudget = 3 * time.Hour // pre-parameter generation happens inside one party call
+	}
 	return x
 }
 
